@@ -82,6 +82,9 @@ def gen_case(rng, malformed=False, maxops=25):
             step = None if rng.random() < 0.9 else 1
             if malformed and rng.random() < 0.4:
                 step = rng.choice([2, -1, 0, 3])
+            if malformed and rng.random() < 0.15:
+                ops.append([vid, "index", rng.randint(-3, n + 2)])     # view[k]: not a slice at all
+                continue
             will = (step in (None, 1)) and not (v["closed"] or freed)
             newid = len(views) if will else None
             ops.append([vid, "slice", a, b, step, newid])
@@ -162,6 +165,8 @@ def coq_op(o):
         vo = "%s %s" % (dict(write="Write", fwrite="FaultWrite", swrite="StrictWrite")[k], vlist(str(b) for b in o[2]))
     elif k == "slice":
         vo = "Slice %s %s %s" % (vopt(o[2], zlit), vopt(o[3], zlit), vopt(o[4], zlit))
+    elif k == "index":
+        vo = "Slice None None (Some (0))"       # a non-slice key takes the branch of a non-contiguous slice
     else:
         vo = dict(tell="Tell", len="Len", address="Address", flush="Flush", close="Close", enter="Enter",
                   exit="Exit")[k]
@@ -280,7 +285,7 @@ def oracle(c, out):
         dead = v["closed"] or freed
         failed = res[0] in ("err", "other")
         if dead:
-            if kind in ("seek", "read", "write", "tell", "flush", "address", "slice"):
+            if kind in ("seek", "read", "write", "tell", "flush", "address", "slice", "index"):
                 if not failed:
                     key = ("slice-after-close" if v["closed"] else "slice-after-free") if kind == "slice" \
                         else "alive-after-" + ("close" if v["closed"] else "free")
@@ -357,6 +362,8 @@ def oracle(c, out):
                 fail("truncation-not-warned", "write of %d bytes at position %d of %d transferred %d bytes "
                      "without a TruncationWarning" % (len(bs), pos, n, k), i)
             v["pos"] = pos + k
+        elif kind == "index":
+            continue                            # view[k] on a live view: the property says nothing
         elif kind == "slice":
             step = o[4]
             if step not in (None, 1):
@@ -451,7 +458,9 @@ def run(chk, args):
                     "sdram_free, whose own behaviour is C07's subject"]
     chk.assumptions += ["start/end addresses, seek offsets, read counts and slice bounds are Python ints; written "
                         "data are bytes", "the controller's read returns exactly the number of bytes asked for",
-                        "views are used from one thread"]
+                        "views are used from one thread",
+                        "a transport fault is atomic: the (fake) controller's read/write/sdram_free either happens or "
+                        "raises having done nothing (partial chunked writes are C07's subject)"]
     chk.regenerate(UNITS)
     built = chk.prove()
     corpus_path = lib.os.path.join(lib.VERIF, "corpus", "C13.json")
